@@ -263,12 +263,94 @@ fn predicates<const D: usize>(rep: &Report, cn: &Cn) {
     });
 }
 
+/// Calls whose budget-bounded searches only run long on unusual inputs: periodic (image-point) builds on thin strips,
+/// where no closed quotient exists and the exact selection search has to run into its node budget. Executed in a child
+/// process so that the parent can enforce the ceiling on a call that does not return.
+const STRIPS: [([f64; 2], usize, (f64, f64)); 5] = [
+    ([1.0, 0.03], 30, (0.381_966_0, 0.145_898_0)), // 70 candidate cells for 60 places: the exact search runs into its node budget
+    ([1.0, 0.05], 24, (0.381_966_0, 0.145_898_0)),
+    ([0.03, 1.0], 30, (0.123_105_6, 0.916_079_7)),
+    ([1.0, 0.1], 16, (0.618_033_988_749_895, 0.754_877_666_246_693)),
+    ([1.0, 0.03], 30, (0.618_033_988_749_895, 0.754_877_666_246_693)),
+];
+
+fn strip_points(domain: [f64; 2], n: usize, (ma, mb): (f64, f64)) -> Vec<[f64; 2]> {
+    // low-discrepancy sequence inside the fundamental domain (deterministic, no ties)
+    (1..=n).map(|i| { let a = (i as f64 * ma).fract(); let b = (i as f64 * mb).fract(); [a * domain[0], b * domain[1]] }).collect()
+}
+
+fn child_periodic(which: usize) {
+    let (domain, n, mult) = STRIPS[which];
+    let verts: Vec<_> = strip_points(domain, n, mult).iter().enumerate().map(|(i, c)| mk_vertex::<i32, 2>(*c, 1 + i as u128, Some(i as i32))).collect();
+    let t0 = Instant::now();
+    let r = guarded(|| delaunay::core::builder::DelaunayTriangulationBuilder::from_vertices(&verts).toroidal_periodic(domain).build_with_kernel::<FastKernel<f64>, ()>(&FastKernel::new()));
+    let class = match &r {
+        Ok(Ok(_)) => "Ok",
+        Ok(Err(_)) => "Err",
+        Err(_) => "panic",
+    };
+    println!("periodic_strip {which} {class} {:.3}", t0.elapsed().as_secs_f64());
+    if std::env::var("C19_DEBUG").is_ok() {
+        if let Ok(Err(e)) = &r {
+            eprintln!("{e}");
+        }
+    }
+}
+
+const CHILD_CEILING_S: u64 = 60;
+
+fn watchdog_periodic(rep: &Report, cn: &Cn) {
+    for which in 0..STRIPS.len() {
+        let (domain, n, mult) = STRIPS[which];
+        cn.constructions.fetch_add(1, Ordering::Relaxed);
+        let mut child = match std::process::Command::new(std::env::current_exe().unwrap()).arg("--child-periodic").arg(which.to_string()).stdout(std::process::Stdio::piped()).spawn() {
+            Ok(c) => c,
+            Err(e) => machinery_fail(&format!("cannot spawn the watchdog child: {e}")),
+        };
+        let t0 = Instant::now();
+        let status = loop {
+            match child.try_wait() {
+                Ok(Some(st)) => break Some(st),
+                Ok(None) if t0.elapsed().as_secs() >= CHILD_CEILING_S => break None,
+                Ok(None) => std::thread::sleep(std::time::Duration::from_millis(50)),
+                Err(e) => machinery_fail(&format!("watchdog wait failed: {e}")),
+            }
+        };
+        let replay = json!({"op": "toroidal_periodic build", "domain": domain.to_vec(), "points": strip_points(domain, n, mult).iter().map(|p| p.to_vec()).collect::<Vec<_>>()});
+        match status {
+            None => {
+                let _ = child.kill();
+                let _ = child.wait();
+                rep.violation(Finding { signature: json!({"check": "did_not_return", "op": "periodic_build", "strip": which}), description: format!("periodic build of {n} points on the thin domain {domain:?} did not return within {CHILD_CEILING_S} s"), replay });
+            }
+            Some(st) => {
+                let mut out = String::new();
+                if let Some(mut so) = child.stdout.take() {
+                    use std::io::Read;
+                    let _ = so.read_to_string(&mut out);
+                }
+                if !st.success() || out.contains("panic") {
+                    rep.violation(Finding { signature: json!({"check": "panic", "op": "periodic_build", "strip": which}), description: format!("periodic build on the thin domain {domain:?} panicked or crashed: {out}"), replay });
+                } else {
+                    rep.outcome(&format!("periodic_strip:{}", out.split_whitespace().nth(2).unwrap_or("?")));
+                    let ms = (t0.elapsed().as_secs_f64() * 1000.0) as u64;
+                    cn.slowest_ms.fetch_max(ms, Ordering::Relaxed);
+                }
+            }
+        }
+    }
+}
+
 fn main() {
     let args = parse_args();
     if let Some(p) = &args.replay {
         std::process::exit(vcore::replay::generic(p));
     }
     silence_panics();
+    if let Some(i) = args.extra.iter().position(|a| a == "--child-periodic") {
+        child_periodic(args.extra.get(i + 1).and_then(|s| s.parse().ok()).unwrap_or(0));
+        return;
+    }
     let rep = Report::new("C19", &args);
     let thorough = args.tier == Tier::Thorough;
     let x = usize::from(thorough);
@@ -289,6 +371,7 @@ fn main() {
     let a5: Vec<[f64; 5]> = alpha::cube_alphabet::<5>().into_iter().take(8).collect();
     let s5: Vec<[f64; 5]> = a5.iter().take(7).copied().collect();
     both::<5>(&rep, &cn, "from constructed seed", a5, &s5, 1, &mut total, &mut bounds);
+    watchdog_periodic(&rep, &cn);
     constructions::<FastKernel<f64>, 2>(&rep, &cn, "fast");
     constructions::<RobustKernel<f64>, 2>(&rep, &cn, "robust");
     constructions::<FastKernel<f64>, 3>(&rep, &cn, "fast");
